@@ -71,8 +71,102 @@ for _fn, _arg in (('_tls12_sign_ecdsa_SKE', 'serverKeyExchange'), ('_tls12_sign_
 
 REG.note('C10', 'trusted', 'M2 (sign-then-verify tasks): privateKey.sign/verify are opaque; that verify returns false for a wrong '
                            'signature is the verify contracts (RSA: proved here; ECDSA/EdDSA/DSA: external package, assumed)')
-REG.note('C10', 'not_built', 'sign-then-verify dominance for signServerKeyExchange (<TLS1.2 branch), makeCertificateVerify and the TLS 1.3 '
-                             'CertificateVerify emission sites')
+REG.note('C10', 'not_built', 'sign-then-verify dominance for signServerKeyExchange (<TLS1.2 branch) and the post-handshake '
+                             'client CertificateVerify (tlsrecordlayer._handle_pha, partly under C16)')
+
+
+# ---------------------------------------------------------------------------------------------------------------------
+# CertificateVerify emission sites: KeyExchange.makeCertificateVerify (client, <= TLS 1.2), _clientTLS13Handshake,
+# _serverTLS13Handshake.  The code binds sig_func / ver_func to a method pair of privateKey and calls them.
+import ast
+from contracts.m2_common import TC, h_sendError
+
+ATTR = lambda n, t: z3.Function('v_attr_' + n, smt.Val, smt.Val)(t)
+SITES = {'n': 0}
+
+
+def h_sig_func(ex, recv, args, kwargs, st, fr, node):
+    r = fresh_opaque('signature')
+    st.ghost['sig'] = r
+    st.ghost['sig_args'] = list(args)
+    st.ghost['sig_func'] = st.env.get('sig_func')
+    st.ghost.pop('ver_result', None)
+    return [Outcome('normal', st, r)]
+
+
+def h_ver_func(ex, recv, args, kwargs, st, fr, node):
+    r = fresh_opaque('verify_result')
+    st.ghost['ver_result'] = r
+    st.ghost['ver_args'] = list(args)
+    st.ghost['ver_func'] = st.env.get('ver_func')
+    return [Outcome('normal', st, r)]
+
+
+def _key_var(fr_env):
+    return fr_env.get('privateKey')
+
+
+def h_create_cv(ex, recv, args, kwargs, st, fr, node):
+    """<certificate verify message>.create(signature, scheme): the emission point"""
+    f = node.func
+    nm = ast.unparse(f.value) if isinstance(f, ast.Attribute) else ''
+    if 'verify' not in nm.lower() or len(args) < 1:
+        return None
+    SITES['n'] += 1
+    g = st.ghost
+    L = node.lineno
+
+    def ob(name, goal):
+        ex.oblige(st, 'L%d:%s' % (L, name), goal if not isinstance(goal, bool) else z3.BoolVal(goal), kind='m2')
+    if 'sig' not in g:
+        ob('emitted-signature-was-made-here', False)
+        return None
+    ob('emitted-signature-is-the-one-just-made', to_val(args[0]) == to_val(g['sig']))
+    have = 'ver_result' in g and len(g.get('ver_args', [])) >= 2
+    ob('signature-verified-before-being-emitted(fault-protection)', have and v_truthy(to_val(g['ver_result'])))
+    if have:
+        va, sa = g['ver_args'], g['sig_args']
+        ob('verified-that-very-signature-over-the-signed-data',
+           z3.And(to_val(va[0]) == to_val(g['sig']), to_val(va[1]) == to_val(sa[0])))
+        ob('verified-with-the-same-padding-hash-and-salt-parameters',
+           len(va) == len(sa) + 1 and z3.And([to_val(a) == to_val(b) for a, b in zip(va[2:], sa[1:])] + [z3.BoolVal(True)]))
+        pk = st.env.get('privateKey')
+        sf, vf = g.get('sig_func'), g.get('ver_func')
+        if pk is None or sf is None or vf is None:
+            ob('verify-method-belongs-to-the-signing-key', False)
+        else:
+            k = to_val(pk)
+            ob('verify-method-belongs-to-the-signing-key(sign/verify-or-hashAndSign/hashAndVerify-of-privateKey)',
+               z3.Or(z3.And(to_val(sf) == ATTR('sign', k), to_val(vf) == ATTR('verify', k)),
+                     z3.And(to_val(sf) == ATTR('hashAndSign', k), to_val(vf) == ATTR('hashAndVerify', k))))
+    return None
+
+
+def _mk_cv_spec(extra_hooks=None):
+    hooks = {'sig_func': h_sig_func, 'ver_func': h_ver_func, 'create': h_create_cv, '_sendError': h_sendError}
+    hooks.update(extra_hooks or {})
+    return M2Spec(hooks=hooks, pure={'getExtension', 'copy', 'digest', 'isinstance', 'len', 'HKDF_expand_label', 'secureHMAC',
+                                     'toRepr', 'getHash', 'getPadding', 'decode', '_getPRFParams', 'getattr', 'calcVerifyBytes',
+                                     'getFirstMatching', 'derive_secret'})
+
+
+def _mk_cv_check(min_sites):
+    def check(api):
+        api.oblige(api.entry, 'has-normal-exit', len(api.normal_exits()) >= 1)
+        api.oblige(api.entry, 'cover:CertificateVerify.create-site-reached', SITES['n'] >= min_sites)
+        SITES['n'] = 0
+    return check
+
+
+for _name, _q in (('KeyExchange.makeCertificateVerify', KX + 'makeCertificateVerify'),
+                  ('_clientTLS13Handshake', TC + '_clientTLS13Handshake'),
+                  ('_serverTLS13Handshake', TC + '_serverTLS13Handshake')):
+    m2task('%s/CertificateVerify-sign-then-verify' % _name, ('C10',), _q, _mk_cv_spec(), check=_mk_cv_check(1),
+           opts={'ground_feasible': True},
+           doc='the CertificateVerify signature handed to create() is the one just made and was verified, with the same data and '
+               'parameters, by the verify method paired with the signing method of the same private key; otherwise '
+               'internal_error / TLSInternalError and nothing is emitted')
+
 
 
 # --- DSA verification range checks (C10/C05): FIPS 186-4 section 4.7 -- a signature with r or s outside (0, q) must be rejected
